@@ -29,6 +29,8 @@ enum In {
     TaskBash,
     /// a provider run whose model calls `write` (the agent-loop tool path, its own guard site)
     AgentWrite,
+    /// one apply_patch call that updates a file AND moves it (two paths change: the old and the new)
+    PatchMove,
     /// the shell tool run by a session, under its own name and under its registered alias
     BashTool,
     ShellAlias,
@@ -45,6 +47,7 @@ fn input(i: In) -> String {
         In::WriteTimeout0 => json!({"tool": "write", "args": {"path": "t.txt", "content": "T"}, "timeout_ms": 0}).to_string(),
         In::TaskBash => json!({"tool": "bash", "args": {"command": "echo T > task.txt", "cwd": "."}}).to_string(),
         In::AgentWrite => "please write".to_string(),
+        In::PatchMove => json!({"tool": "apply_patch", "args": {"patch": "*** Begin Patch\n*** Update File: mv.txt\n*** Move to: moved.txt\n@@\n-mv\n+MV\n*** End Patch"}}).to_string(),
         In::BashTool => json!({"tool": "bash", "args": {"command": "echo S > bash.txt", "cwd": "."}}).to_string(),
         In::ShellAlias => json!({"tool": "shell", "args": {"command": "echo S > alias.txt", "cwd": "."}}).to_string(),
         In::Read => json!({"tool": "read", "args": {"path": "seed.txt"}}).to_string(),
@@ -57,7 +60,20 @@ fn mutating(i: In) -> bool {
 }
 
 fn logs_side_effects(i: In) -> bool {
-    matches!(i, In::WriteA | In::WriteB | In::Patch | In::WriteTimeout0 | In::AgentWrite | In::BashTool | In::ShellAlias)
+    matches!(i, In::WriteA | In::WriteB | In::Patch | In::PatchMove | In::WriteTimeout0 | In::AgentWrite | In::BashTool | In::ShellAlias)
+}
+
+/// The files the input's tool call changes (None: a shell command, whose effects the tool cannot list).
+fn changed_files(i: In) -> Option<Vec<&'static str>> {
+    match i {
+        In::WriteA => Some(vec!["a.txt"]),
+        In::WriteB => Some(vec!["b.txt"]),
+        In::Patch => Some(vec!["p.txt"]),
+        In::PatchMove => Some(vec!["moved.txt", "mv.txt"]),
+        In::WriteTimeout0 => Some(vec!["t.txt"]),
+        In::AgentWrite => Some(vec!["agent.txt"]),
+        _ => None,
+    }
 }
 
 /// One scripted provider for the whole check (its own runtime); every world uses a fresh key.
@@ -83,6 +99,7 @@ const FILTER: [&str; 11] = ["start", "ws.lock", "ws.guard.*", "tool.handler.*", 
 fn make_world(rt: &Arc<tokio::runtime::Runtime>, inputs: &[In]) -> (World, Vec<ActorBody>) {
     let fx = Fx::new(rt.clone());
     std::fs::write(fx.root.join("seed.txt"), "seed\n").unwrap();
+    std::fs::write(fx.root.join("mv.txt"), "mv\n").unwrap();
     let store = fx.store();
     let thread = store.ensure_default().expect("thread");
     let mut actors: Vec<ActorBody> = Vec::new();
@@ -233,6 +250,23 @@ fn check_exec(report: &Report, inputs: &[In], world: &World, exec: &Exec, saw_ov
             return;
         }
         if want == 1 {
+            // "listing the files it changed": the frame's affected_paths are exactly the changed files
+            if let Some(expect) = changed_files(*i) {
+                let sess = &world.sessions[idx];
+                let listed: Option<Vec<String>> = events.iter().find_map(|e| match &e.kind {
+                    EventKind::ContinuityToolSideEffects { run_session_id, affected_paths, .. } if run_session_id == sess => affected_paths.clone(),
+                    _ => None,
+                });
+                let mut got = listed.clone().unwrap_or_default();
+                got.sort();
+                got.dedup();
+                // (two runs of the same input - e.g. PatchMove twice - : the second one fails and changes nothing)
+                let failed = inputs.iter().filter(|x| **x == *i).count() > 1 && got.is_empty();
+                if got != expect.iter().map(|s| s.to_string()).collect::<Vec<_>>() && !failed {
+                    report.violation(&format!("C11:side_effect_paths:{label}"), case(), &format!("run {idx} ({i:?}) changed {:?}; its side-effects frame lists {:?}", expect, listed));
+                    return;
+                }
+            }
             let sess = &world.sessions[idx];
             let pos_frame = events.iter().position(|e| matches!(&e.kind, EventKind::ContinuityToolSideEffects { run_session_id, .. } if run_session_id == sess));
             let pos_end = events.iter().position(|e| matches!(&e.kind, EventKind::ContinuityRunEnded { run_session_id, .. } if run_session_id == sess));
@@ -378,6 +412,41 @@ fn queued_histories(report: &Report) {
             );
         }
     });
+    // a RUNNING task that is cancelled while a descendant of its shell (output redirected away from
+    // the task's pipes) still has a write ahead of it: once the task has ended cancelled and the
+    // lock has passed on, nothing of it may still change the workspace
+    if !report.over_cap() {
+        let app = crate::provx::App::new(rt.clone(), None);
+        let thread = app.ensure_thread();
+        let (_, b) = app.request("POST", "/tasks", Some(json!({"tool": "bash", "args": {"command": "echo h > h.txt; sh -c 'sleep 0.9; echo late > late.txt' >/dev/null 2>&1", "cwd": "."}})));
+        let tid = serde_json::from_slice::<Value>(&b).ok().and_then(|v| v["task_id"].as_str().map(|s| s.to_string())).unwrap_or_default();
+        let t0 = Instant::now();
+        while !app.root.join("h.txt").exists() && t0.elapsed() < Duration::from_secs(10) {
+            std::thread::sleep(Duration::from_millis(5));
+        }
+        if tid.is_empty() || !app.root.join("h.txt").exists() {
+            crate::common::machinery_failure("c11.queued: the task with a descendant did not start");
+        }
+        std::thread::sleep(Duration::from_millis(150));
+        let _ = app.request("POST", &format!("/tasks/{tid}/cancel"), Some(json!({"reason": "mid-run"})));
+        let _ = app.request("POST", &format!("/threads/{thread}/messages"), Some(json!({"content": json!({"tool": "bash", "args": {"command": "sleep 1.3; if [ -e late.txt ]; then echo overlapped > witness.txt; fi; echo done > h_done.txt", "cwd": "."}}).to_string()})));
+        let t0 = Instant::now();
+        while !app.root.join("h_done.txt").exists() && t0.elapsed() < Duration::from_secs(15) {
+            std::thread::sleep(Duration::from_millis(10));
+        }
+        if !app.root.join("h_done.txt").exists() {
+            crate::common::machinery_failure("c11.queued: the mutation after the cancelled task did not finish");
+        }
+        report.eval(Some(&("queued", "cancelled_task_with_descendant")));
+        report.count("queued_histories", 1);
+        if app.root.join("witness.txt").exists() {
+            report.violation(
+                "C11:cancelled_task_still_mutating",
+                json!({"engine": "P", "harness": "c11.queued", "holder": "task whose shell runs a child with redirected output", "queued": "session_tool", "action": "cancel_running"}),
+                "a running task was cancelled (status cancelled, lock released) while a child of its shell still had a write ahead of it; the write landed 0.7 s later, while the next mutating tool call was running under the lock",
+            );
+        }
+    }
     // a holder whose tool call TIMES OUT: the call ends in tool_failed and the lock is released; what
     // the timed-out execution still does afterwards must not land while the next mutation runs
     for kind in ["bash", "shell"] {
@@ -424,7 +493,7 @@ fn queued_histories(report: &Report) {
 }
 
 pub fn replay(report: &Report, case: &Value) {
-    let all = [In::WriteA, In::WriteB, In::Patch, In::CheckpointCreate, In::WriteTimeout0, In::TaskBash, In::AgentWrite, In::BashTool, In::ShellAlias, In::Read, In::Ls];
+    let all = [In::WriteA, In::WriteB, In::Patch, In::PatchMove, In::CheckpointCreate, In::WriteTimeout0, In::TaskBash, In::AgentWrite, In::BashTool, In::ShellAlias, In::Read, In::Ls];
     let inputs: Vec<In> = case["inputs"].as_array().map(|a| a.iter().filter_map(|v| all.iter().copied().find(|i| format!("{i:?}") == v.as_str().unwrap_or(""))).collect()).unwrap_or_default();
     if case["harness"] == "c11.queued" {
         rip_kernel::verif::clear();
@@ -451,7 +520,7 @@ pub fn run(opts: Opts) -> i32 {
     report.set_rule(
         "engine S: every unordered pair (thorough: plus triples at bound 1) of inputs {write a, write b, apply_patch, checkpoint create, write with timeout_ms 0 (ends in tool_failed), a background bash task that writes a file, a provider run whose model calls write (agent-loop tool path), read, \
          ls} as real run_session futures linked to one thread on one engine; all interleavings at workspace-lock / tool-semaphore / guard \
-         and handler span / seq-lock / publish hooks with <=1 (quick) / <=2 (thorough) preemptions; state = distinct executed schedule; every config with a read-only tool must show the read-only handler overlapping the other execution in at least one interleaving; plus 12 real-time histories with a QUEUED mutation (holder task / session shell tool x queued task / session write x {nothing, cancel, cancel twice}) witnessed by the holder itself",
+         and handler span / seq-lock / publish hooks with <=1 (quick) / <=2 (thorough) preemptions; state = distinct executed schedule; every config with a read-only tool must show the read-only handler overlapping the other execution in at least one interleaving; plus 15 real-time histories with a QUEUED mutation (holder task / session shell tool x queued task / session write x {nothing, cancel, cancel twice}) witnessed by the holder itself",
     );
     report.assume("tool handlers run on tokio's blocking pool and a task's child process and pumps on the runtime: the actor waits for them in place (external work never depends on a parked actor)");
     report.assume("a timeout_ms on a tool is an input, not a schedule (the timed-out tool keeps running after tool_failed): see DESIGN.md known limitation");
@@ -462,7 +531,7 @@ pub fn run(opts: Opts) -> i32 {
         return report.finish();
     }
     let tier = report.tier();
-    let all = [In::WriteA, In::WriteB, In::Patch, In::CheckpointCreate, In::WriteTimeout0, In::TaskBash, In::AgentWrite, In::BashTool, In::ShellAlias, In::Read, In::Ls];
+    let all = [In::WriteA, In::WriteB, In::Patch, In::PatchMove, In::CheckpointCreate, In::WriteTimeout0, In::TaskBash, In::AgentWrite, In::BashTool, In::ShellAlias, In::Read, In::Ls];
     let mut configs: Vec<(Vec<In>, usize)> = Vec::new();
     for (i, a) in all.iter().enumerate() {
         for b in &all[i..] {
